@@ -3,6 +3,7 @@
 package vam
 
 import (
+	"sync"
 	"unsafe"
 
 	"github.com/vkngwrapper/core/v3/common"
@@ -55,6 +56,7 @@ func (s *simInstance) GetPhysicalDeviceMemoryProperties(pd core1_0.PhysicalDevic
 
 type simDevice struct {
 	core1_0.CoreDeviceDriver
+	mu   sync.Mutex // the driver is thread-safe (as a Vulkan driver is for distinct objects)
 	inst *simInstance
 	dev  core1_0.Device
 	pd   core1_0.PhysicalDevice
@@ -126,6 +128,9 @@ func (d *simDevice) liveBytesOfHeap(heap int) int {
 }
 
 func (d *simDevice) AllocateMemory(cb *loader.AllocationCallbacks, o core1_0.MemoryAllocateInfo) (core1_0.DeviceMemory, common.VkResult, error) {
+	verifYield()
+	d.mu.Lock()
+	defer d.mu.Unlock()
 	d.allocCalls++
 	d.allocTypes = append(d.allocTypes, o.MemoryTypeIndex)
 	if d.fault("AllocateMemory") {
@@ -149,6 +154,9 @@ func (d *simDevice) AllocateMemory(cb *loader.AllocationCallbacks, o core1_0.Mem
 }
 
 func (d *simDevice) FreeMemory(memory core1_0.DeviceMemory, cb *loader.AllocationCallbacks) {
+	verifYield()
+	d.mu.Lock()
+	defer d.mu.Unlock()
 	d.calls++
 	m := d.memOf(memory)
 	if m == nil || !m.live {
@@ -160,6 +168,9 @@ func (d *simDevice) FreeMemory(memory core1_0.DeviceMemory, cb *loader.Allocatio
 }
 
 func (d *simDevice) MapMemory(memory core1_0.DeviceMemory, offset int, size int, flags core1_0.MemoryMapFlags) (unsafe.Pointer, common.VkResult, error) {
+	verifYield()
+	d.mu.Lock()
+	defer d.mu.Unlock()
 	m := d.memOf(memory)
 	if m == nil || !m.live {
 		d.calls++
@@ -187,6 +198,9 @@ func (d *simDevice) MapMemory(memory core1_0.DeviceMemory, offset int, size int,
 }
 
 func (d *simDevice) UnmapMemory(memory core1_0.DeviceMemory) {
+	verifYield()
+	d.mu.Lock()
+	defer d.mu.Unlock()
 	d.calls++
 	m := d.memOf(memory)
 	if m == nil || !m.live {
@@ -227,6 +241,9 @@ func (d *simDevice) checkRanges(what string, ranges []core1_0.MappedMemoryRange)
 }
 
 func (d *simDevice) FlushMappedMemoryRanges(ranges ...core1_0.MappedMemoryRange) (common.VkResult, error) {
+	verifYield()
+	d.mu.Lock()
+	defer d.mu.Unlock()
 	d.calls++
 	d.checkRanges("vkFlushMappedMemoryRanges", ranges)
 	d.lastRanges = append([]core1_0.MappedMemoryRange{}, ranges...)
@@ -234,6 +251,9 @@ func (d *simDevice) FlushMappedMemoryRanges(ranges ...core1_0.MappedMemoryRange)
 }
 
 func (d *simDevice) InvalidateMappedMemoryRanges(ranges ...core1_0.MappedMemoryRange) (common.VkResult, error) {
+	verifYield()
+	d.mu.Lock()
+	defer d.mu.Unlock()
 	d.calls++
 	d.checkRanges("vkInvalidateMappedMemoryRanges", ranges)
 	d.lastRanges = append([]core1_0.MappedMemoryRange{}, ranges...)
@@ -259,6 +279,9 @@ func (d *simDevice) resOfImage(i core1_0.Image) *simRes {
 }
 
 func (d *simDevice) CreateBuffer(cb *loader.AllocationCallbacks, o core1_0.BufferCreateInfo) (core1_0.Buffer, common.VkResult, error) {
+	verifYield()
+	d.mu.Lock()
+	defer d.mu.Unlock()
 	if d.fault("CreateBuffer") {
 		return core1_0.Buffer{}, core1_0.VKErrorOutOfHostMemory, core1_0.VKErrorOutOfHostMemory.ToError()
 	}
@@ -269,6 +292,9 @@ func (d *simDevice) CreateBuffer(cb *loader.AllocationCallbacks, o core1_0.Buffe
 }
 
 func (d *simDevice) DestroyBuffer(b core1_0.Buffer, cb *loader.AllocationCallbacks) {
+	verifYield()
+	d.mu.Lock()
+	defer d.mu.Unlock()
 	d.calls++
 	r := d.resOfBuffer(b)
 	if r == nil || !r.live {
@@ -279,6 +305,9 @@ func (d *simDevice) DestroyBuffer(b core1_0.Buffer, cb *loader.AllocationCallbac
 }
 
 func (d *simDevice) GetBufferMemoryRequirements(b core1_0.Buffer) *core1_0.MemoryRequirements {
+	verifYield()
+	d.mu.Lock()
+	defer d.mu.Unlock()
 	d.calls++
 	r := d.resOfBuffer(b)
 	if r == nil || !r.live {
@@ -314,6 +343,9 @@ func (d *simDevice) bind(what string, r *simRes, memory core1_0.DeviceMemory, of
 }
 
 func (d *simDevice) BindBufferMemory(b core1_0.Buffer, memory core1_0.DeviceMemory, offset int) (common.VkResult, error) {
+	verifYield()
+	d.mu.Lock()
+	defer d.mu.Unlock()
 	if d.fault("BindBufferMemory") {
 		return core1_0.VKErrorOutOfDeviceMemory, core1_0.VKErrorOutOfDeviceMemory.ToError()
 	}
@@ -322,6 +354,9 @@ func (d *simDevice) BindBufferMemory(b core1_0.Buffer, memory core1_0.DeviceMemo
 }
 
 func (d *simDevice) CreateImage(cb *loader.AllocationCallbacks, o core1_0.ImageCreateInfo) (core1_0.Image, common.VkResult, error) {
+	verifYield()
+	d.mu.Lock()
+	defer d.mu.Unlock()
 	if d.fault("CreateImage") {
 		return core1_0.Image{}, core1_0.VKErrorOutOfHostMemory, core1_0.VKErrorOutOfHostMemory.ToError()
 	}
@@ -332,6 +367,9 @@ func (d *simDevice) CreateImage(cb *loader.AllocationCallbacks, o core1_0.ImageC
 }
 
 func (d *simDevice) DestroyImage(i core1_0.Image, cb *loader.AllocationCallbacks) {
+	verifYield()
+	d.mu.Lock()
+	defer d.mu.Unlock()
 	d.calls++
 	r := d.resOfImage(i)
 	if r == nil || !r.live {
@@ -342,6 +380,9 @@ func (d *simDevice) DestroyImage(i core1_0.Image, cb *loader.AllocationCallbacks
 }
 
 func (d *simDevice) GetImageMemoryRequirements(i core1_0.Image) *core1_0.MemoryRequirements {
+	verifYield()
+	d.mu.Lock()
+	defer d.mu.Unlock()
 	d.calls++
 	r := d.resOfImage(i)
 	if r == nil || !r.live {
@@ -352,6 +393,9 @@ func (d *simDevice) GetImageMemoryRequirements(i core1_0.Image) *core1_0.MemoryR
 }
 
 func (d *simDevice) BindImageMemory(i core1_0.Image, memory core1_0.DeviceMemory, offset int) (common.VkResult, error) {
+	verifYield()
+	d.mu.Lock()
+	defer d.mu.Unlock()
 	if d.fault("BindImageMemory") {
 		return core1_0.VKErrorOutOfDeviceMemory, core1_0.VKErrorOutOfDeviceMemory.ToError()
 	}
